@@ -1,6 +1,7 @@
 //! vmc: bounded exhaustive exploration of rust-vmm/vhost (see /verif/DESIGN.md).
 
 mod checks;
+mod daemonh;
 mod feops;
 mod feraw;
 mod lattice;
@@ -41,6 +42,7 @@ fn run_check(id: &str, rep: &mut Report) -> bool {
         "C07" => checks::c07::run(rep),
         "C08" => checks::c08::run(rep),
         "C09" => checks::c09::run(rep),
+        "C11" => checks::c11::run(rep),
         "C18" => checks::c18::run(rep),
         "C19" => checks::c19::run(rep),
         "C20" => checks::c20::run(rep),
@@ -110,6 +112,7 @@ fn main() {
                 "C07" => checks::c07::replay(&v["case"], &mut rep),
                 "C08" => checks::c08::replay(&v["case"], &mut rep),
                 "C09" => checks::c09::replay(&v["case"], &mut rep),
+                "C11" => checks::c11::replay(&v["case"], &mut rep),
                 "C18" => checks::c18::replay(&v["case"], &mut rep),
                 "C19" => checks::c19::replay(&v["case"], &mut rep),
                 "C20" => checks::c20::replay(&v["case"], &mut rep),
